@@ -42,7 +42,16 @@ def _dump(payload, sub):
     op = payload['op']
     fields = payload['fields']
     names = [f['name'] for f in fields]
-    rows = [dict(zip(names, [T.dec(c) for c in row])) for row in op['rows']]
+    class LazyRows:
+        # rows are decoded when they are pulled and not kept by the source: their cells are short-lived objects (a generator
+        # or a file source behaves like that; a list of dicts would keep every cell alive for the whole run)
+        def __len__(self):
+            return len(op['rows'])
+
+        def __iter__(self):
+            for row in op['rows']:
+                yield dict(zip(names, [T.dec(c) for c in row]))
+    rows = LazyRows()
     originals = [dict(zip(names, [T.dec(c) for c in row])) for row in op['rows']]
     sch = {'fields': [dict(f) for f in fields]}
     if payload.get('pk'):
@@ -97,7 +106,7 @@ def _dump(payload, sub):
                     e = Boom('source exhaustion')
                     e._dfsim_marker = 'source-raise'
                     raise e
-        flow = DF.Flow(DF.load((desc, [Src()]), strip=False), d)
+        flow = DF.Flow(DF.load((desc, [Src()]), strip=False), d)       # (Src yields deep copies: short-lived cells as well)
         ds = None
         try:
             ds = flow.datastream()
@@ -117,16 +126,23 @@ def _dump(payload, sub):
         ds = flow.datastream()
     else:
         ds = DF.Flow(DF.load((desc, [iter(rows)]), strip=False), d).datastream()
-    out = [list(r) for r in ds.res_iter][0]
+    # the consumer does not keep the rows either: each one is normalised as it arrives
     types = {f['name']: f['type'] for f in fields}
-    down = [{k: (norm(v, types[k]) if k in types else v) for k, v in r.items()} for r in out]
-    raw_changed = []
-    for o, r in zip(originals, out):
-        for k in names:
-            if type(o[k]) is not type(r.get(k)) or o[k] != r.get(k):
-                raw_changed.append([k, repr(o[k])[:60], repr(r.get(k))[:60]])
-                break
-    return dict(extra, down=down, raw_changed=raw_changed[:3], n=len(out))
+    down, raw_changed, n_out = [], [], 0
+    for res_i, res in enumerate(ds.res_iter):
+        for ri, r in enumerate(res):
+            if res_i:
+                continue
+            n_out += 1
+            down.append({k: (norm(v, types[k]) if k in types else v) for k, v in r.items()})
+            if ri < len(originals):
+                o = originals[ri]
+                for k in names:
+                    if type(o[k]) is not type(r.get(k)) or o[k] != r.get(k):
+                        raw_changed.append([k, repr(o[k])[:60], repr(r.get(k))[:60]])
+                        break
+            del r
+    return dict(extra, down=down, raw_changed=raw_changed[:3], n=n_out)
 
 
 def read_table(path, fields):
@@ -171,9 +187,12 @@ class C20(Prop):
         ops = []
         for i in range(rng.choice([1, 2, 2, 3, 4, 5])):
             n = rng.choice([0, 1, 2, 3, 5, 8])
+            many = rng.random() < 0.15
+            if many:
+                n = rng.choice([30, 60, 150])       # more rows than a write batch, and than the 100-row inference sample
             rows = []
             for _ in range(n):
-                row = [rng.choice([1, 2, 3, 4]), rng.choice(['p', 'q'])]
+                row = [rng.choice([1, 2, 3, 4]) if not many else rng.randrange(1, 200), rng.choice(['p', 'q'])]
                 for f in fields[2:]:
                     row.append(T.enc(self._val(rng, f['type'])))
                 rows.append(row)
